@@ -336,6 +336,29 @@ def gen_trace(tier, rng):
                                         [text_reply([ok(1)]) if k == 'ok' else TRACE_OUTCOMES[k]() for k in seq], tag='trace')
 
 
+def gen_raising(tier, rng):
+    """a last tracer whose completion hook raises: every tracer before it still sees exactly one completion per begin"""
+    for ntr in (1, 2, 3):
+        for caller_ctx in (False, True):
+            for kind in ('ok', 'error-response', 'transport-exc'):
+                for n in (0, 2):
+                    st = strategy({'k': 'periodic', 'attempts': str(n), 'interval': F(0.0), 'jitter': []}, 'one', 'one') if n else None
+                    cl = client_cfg(tracers=ntr, caller_ctx=caller_ctx, retry=st)
+                    cl['raising_tracer'] = True
+                    yield send_case(cl, single(), [TRACE_OUTCOMES[kind]()], call=True, tag='trace-raising')
+                    yield send_case(cl, single(id=None), [{'k': 'none'}], tag='trace-raising')
+                    yield send_case(cl, batch([_req_spec('a', None, 1), _req_spec('b', None, 2)]),
+                                    [text_reply([ok(1), ok(2)]) if kind == 'ok' else TRACE_OUTCOMES[kind]()], tag='trace-raising')
+
+
+def balanced(trace):
+    """per tracer: the events alternate begin, completion, begin, completion, ..."""
+    by = {}
+    for e in trace:
+        by.setdefault(e['t'], []).append(e['k'])
+    return all(all((k == 'begin') == (i % 2 == 0) for i, k in enumerate(ks)) and len(ks) % 2 == 0 for ks in by.values())
+
+
 def gen_overlap(tier, rng):
     """attempts in flight at the same time on one client object: each is traced like a lone request"""
     for n in (2, 3):
@@ -353,6 +376,7 @@ def generate(tier, rng):
     yield from gen_retry(tier, rng)
     yield from gen_sessions(tier, rng)
     yield from gen_trace(tier, rng)
+    yield from gen_raising(tier, rng)
 
 
 # ------------------------------------------------------------------------------------------------
@@ -381,7 +405,7 @@ def halves(out):
     return {h: out for h in HALVES}
 
 
-TAGS = {'C08': ('relate',), 'C09': ('retry',), 'C19': ('trace', 'retry'), 'C11': ('relate', 'retry', 'trace')}
+TAGS = {'C08': ('relate',), 'C09': ('retry',), 'C19': ('trace', 'retry', 'trace-raising'), 'C11': ('relate', 'retry', 'trace')}
 
 
 def relevant(prop, c):
@@ -403,6 +427,9 @@ def _proj_one(prop, c, o):
         return {'final': _kind(o['final']), 'value': o['value'], 'related': o['related'], 'value_call': o.get('value_call', o['value'])}
     if prop == 'C09':
         return {'sends': o['sends'], 'sleeps': o['sleeps'], 'final': _kind(o['final']), 'value': o['value']}
+    if prop == 'C19' and c.get('tag') == 'trace-raising':
+        # the model knows no failing tracers; what it says about the others - one completion per begin - is what is compared
+        return {'balanced': balanced(o['trace'])}
     if prop == 'C19':
         return {'trace': o['trace'], 'raised': (o['final'] or {}).get('raised'),
                 'trace_dunder': o['trace_dunder'] if o.get('trace_dunder') is not None else o['trace']}
@@ -635,6 +662,9 @@ def _oracle_half(prop, c, o, half):
         if o['raised_attempt'] != int(o['sends']) - 1:
             fail('stale-exception-object', f'the caller received the exception raised by attempt {o["raised_attempt"]}, '
                                            f'the last attempt was number {int(o["sends"]) - 1}')
+    if prop == 'C19' and c.get('tag') == 'trace-raising' and not balanced(o['trace']):
+        fail('completion-not-exactly-once', 'with a last tracer whose completion hook raises, an earlier tracer was told more (or less) than one '
+                                            'completion for a begin: ' + ' '.join(e['t'] + ':' + e['k'] for e in o['trace']))
     if prop == 'C19' and o.get('trace_dunder') is not None and o['trace_dunder'] != o['trace']:
         fail('trace-call-operator', 'client(method, ...) with a caller-supplied trace context is not traced like client.send(...) '
                                     '(same events, same context)', o['trace'])
